@@ -77,10 +77,35 @@ def check_operator(kind, dim, op, opts, grid, arr, backend="numba"):
     return worst, where
 
 
+def grid_from_instance(kind, inst):
+    bounds = [(l, l + n * h) for l, n, h in zip(inst["lo"], inst["shape"], inst["h"])]
+    if kind == "cartesian":
+        return CartesianGrid(bounds, inst["shape"])
+    if kind == "polar":
+        return PolarSymGrid(bounds[0], inst["shape"][0])
+    if kind == "spherical":
+        return SphericalSymGrid(bounds[0], inst["shape"][0])
+    return CylindricalSymGrid(bounds[0], bounds[1], inst["shape"])
+
+
 def run(payload):
     rng = np.random.default_rng(payload.get("seed", 0))
     fails = []
     cases = 0
+    if "instance" in payload:
+        # replay of a solver counter-model: exactly this grid and padded array
+        cfg, inst = payload["configs"][0], payload["instance"]
+        kind, dim, op, opts = cfg["kind"], cfg.get("dim"), cfg["op"], cfg.get("opts", {})
+        grid = grid_from_instance(kind, inst)
+        arr = np.array(inst["arr"], dtype=float)
+        try:
+            worst, where = check_operator(kind, dim, op, opts, grid, arr)
+        except Exception as e:
+            return {"ok": True, "cases": 1, "failures": [], "instance_error": f"{type(e).__name__}: {e}"}
+        if worst > 1e-9:
+            fails.append({"id": f"{kind}{dim or ''}.{op}{opts}", "config": cfg, "grid": repr(grid), "rel_deviation": worst, "component_and_cell": where,
+                          "arr": arr.tolist(), "from": "solver counter-model (small instance)"})
+        return {"ok": True, "cases": 1, "failures": fails}
     for cfg in payload["configs"]:
         kind, dim, op, opts = cfg["kind"], cfg.get("dim"), cfg["op"], cfg.get("opts", {})
         for k in range(payload.get("grids_per_config", 3)):
